@@ -245,6 +245,7 @@ pub fn c10() -> Outcome {
         n += 1; d.insert((100 + ii, 0));
         let p: v1::ParametricInstance = i.clone().into();
         let back = match p.with_parameters(v1::Parameters::default()) { Ok(b) => b, Err(e) => fail!(n, d, "round trip through ParametricInstance failed: {e}") };
+        if back.decision_variable_dependency != i.decision_variable_dependency || back.constraint_hints != i.constraint_hints || back.description != i.description { fail!(n, d, "round trip through ParametricInstance lost or changed the dependency map, the constraint hints or the description: dependencies {:?} -> {:?}", i.decision_variable_dependency.keys().collect::<Vec<_>>(), back.decision_variable_dependency.keys().collect::<Vec<_>>()); }
         if back.decision_variables != i.decision_variables || back.sense != i.sense || back.removed_constraints != i.removed_constraints || back.constraints.len() != i.constraints.len() { fail!(n, d, "round trip changed the instance structure"); }
         for s in states5() {
             let pairs: Vec<(Function, Function)> = std::iter::once((back.objective.clone().unwrap_or_default(), i.objective.clone().unwrap_or_default())).chain(back.constraints.iter().zip(i.constraints.iter()).map(|(a, b)| (cfun(a), cfun(b)))).collect();
@@ -311,7 +312,7 @@ pub fn c11() -> Outcome {
         if i.as_qubo_format().is_ok() { fail!(n, d, "as_qubo_format accepted: {name}"); }
     }
     // a removed constraint or an unused non-binary variable is no reason to refuse
-    { n += 1; let mut i = base(); i.decision_variables.push(dv(9, Kind::Continuous, None)); i.constraints.push(con(1, Equality::EqualToZero, f_of(F::Linear(lin(&[(1, 1.0)], 0.0))))); i.relax_constraint(1, "r".into(), HashMap::new()).unwrap();
+    { n += 1; let mut i = base(); i.decision_variables.push(dv(9, Kind::Continuous, None)); i.constraints.push(con(1, Equality::EqualToZero, f_of(F::Linear(lin(&[(1, 1.0), (9, 1.0)], 0.0))))); i.relax_constraint(1, "r".into(), HashMap::new()).unwrap();   // the removed constraint mentions the continuous x9
       if i.as_pubo_format().is_err() || i.as_qubo_format().is_err() { fail!(n, d, "export refused although only a removed constraint / unused continuous variable is present"); } }
     Outcome { cases: n, distinct: d.len(), fail: None }
 }
@@ -401,6 +402,13 @@ pub fn c13() -> Outcome {
         let mut i = mk(&fs[0]); let before = i.clone();
         let ok = if which == 0 { i.convert_inequality_to_equality_with_integer_slack(*id, 1000).is_ok() } else { i.add_integer_slack_to_inequality(*id, 4).is_ok() };
         if ok || i != before { fail!(n, d, "slack conversion (which={which}) must be rejected without modifying the instance: {name}"); }
+    } }
+    // an inequality that mentions a variable id which is not defined ("unknown IDs ... are rejected without modifying the instance"): linear and quadratic occurrences
+    for (k, f) in [f_of(F::Linear(lin(&[(1, 1.0), (77, 1.0)], -2.0))), f_of(F::Quadratic(quad(&[(77, 77, 1.0)], Some(lin(&[(1, 1.0)], -3.0))))), f_of(F::Quadratic(quad(&[(77, 77, -1.0)], Some(lin(&[(1, 1.0)], -3.0)))))].into_iter().enumerate() { for which in 0..2 {
+        n += 1; d.insert((200 + k, which, 0));
+        let mut i = mk(&fs[0]); i.constraints.push(con(70, Equality::LessThanOrEqualToZero, f.clone())); let before = i.clone();
+        let ok = if which == 0 { i.convert_inequality_to_equality_with_integer_slack(70, 1000).is_ok() } else { i.add_integer_slack_to_inequality(70, 4).is_ok() };
+        if ok || i != before { fail!(n, d, "slack conversion (which={which}) of {f:?} <= 0, which mentions the undefined variable 77, must be rejected without modifying the instance (returned ok={ok})"); }
     } }
     Outcome { cases: n, distinct: d.len(), fail: None }
 }
